@@ -412,6 +412,8 @@ impl C03 {
     if !s.run(&super::c01::define_matrix("x", kind, &vals, r, c)).is_value() { out.count("context_setup_rejected"); return; }
     // shadows: globals named like the local index names, holding other (valid) positions
     for d in ["i := 1", "j := 1", "k := 1"] { s.run(d); }
+    // ... and a global named like the locally bound matrix, of the same shape, holding other elements
+    { let shadow: Vec<String> = (0..r * c).map(|n| format!("{}", 70 + n)).collect(); s.run(&super::c01::define_matrix("m", kind, &shadow, r, c)); }
     let mut n = 0usize;
     for (iv, jv, kv) in [(1usize, 2usize, 2usize), (2, 3, 1), (2, 2, 3), (1, 3, 4), (3, 5, 1), (0, 2, 1), (2, 6, 2)] {
       n += 1;
@@ -437,7 +439,8 @@ impl C03 {
         let mut fvars = vec![crate::ctx::lv("m", "x", &format!("[{}]", kind))];
         fvars.extend(vars.iter().map(|v| crate::ctx::lv(&v.local, &v.global, &v.kind)));
         let fres = crate::ctx::eval_in_contexts(&mut s, uniq + 50000, &fvars, &format!("m[{}]", form), &out_kind, "x[1]", false, false);
-        res.extend(fres.into_iter().filter(|(c, _, _)| *c == crate::ctx::CONTEXTS[0]));
+        // the matrix itself bound locally (function parameter, match-arm binding, machine state variable), shadowed by the global m
+        res.extend(fres.into_iter().filter(|(c, _, _)| *c == crate::ctx::CONTEXTS[0] || *c == crate::ctx::CONTEXTS[1] || *c == crate::ctx::CONTEXTS[4]).map(|(c, t, o)| (c, format!("(matrix bound locally) {}", t), o)));
         let _ = two_d;
         for (ctx, text, o) in res {
           out.evaluations += 1;
